@@ -337,7 +337,7 @@ func emitStreamAfterHeader(cw *caseWriter, prop string, ti, to []colDesc, data [
 	cw.emit(prop+" after header "+descStr(ti)+descStr(to)+string(data), true, "stream", prop, descStr(ti), descStr(to), "tolerant", readerStr(chunk(data, []int{1 << 20})), "-", extStr(ext), obs)
 }
 
-var streamLines = []string{`{"a":1}`, `{"b":"x","a":null}`, ``, `{`, `[1]`, `{"a":"notanumber"}`, `{"a":2,"z":[1,{"q":1}]}`, `   `, `{"a":1} trailing`, `{}`, `null`, `{"a":3}`,
+var streamLines = []string{`{"a":""}`, `{"a":"","b":""}`, `{"a":"x","b":"2021-09-24"}`, `{"a":1}`, `{"b":"x","a":null}`, ``, `{`, `[1]`, `{"a":"notanumber"}`, `{"a":2,"z":[1,{"q":1}]}`, `   `, `{"a":1} trailing`, `{}`, `null`, `{"a":3}`,
 	// an escaped line feed (and other control characters) in a member name and in a value: still one line out
 	`{"k\nk":1,"a":2,"v":"x\ny\r\n"}`, `{"\u000a":"\u000a","\t\u0000":[{"\n":1}]}`,
 	// the shortest texts a recogniser of numbers meets (a lone sign, point or exponent mark), and an array that does
@@ -386,6 +386,8 @@ func genC07(cw *caseWriter, seed uint64, tier string) {
 		{ti, to},
 		{nil, {{name: "a", format: "numeric", ty: "none"}}},
 		{{{name: "a", format: "auto", ty: "none"}, {name: "h", format: "hidden", ty: "none"}}, {{name: "a", format: "numeric", ty: "none"}, {name: "b", format: "string", ty: "none"}}},
+		// text kept as text on the way in and written as binary / date on the way out (empty texts included)
+		{{{name: "a", format: "string", ty: "none"}, {name: "b", format: "string", ty: "none"}}, {{name: "a", format: "binary", ty: "none"}, {name: "b", format: "date", ty: "none"}}},
 	}
 	for i := 0; i < n; i++ {
 		data := randStreamBytes(r, 7)
